@@ -274,6 +274,7 @@ pub fn shrink(property: &str, original: &Scenario, class: &str, budget: u32) -> 
                     *env = EnvSpec {
                       pointer: env.pointer.clone(),
                       pointer_permille: env.pointer_permille,
+                      pointer_input: env.pointer_input,
                       parents: env.parents.clone(),
                       unknown_tag: env.unknown_tag,
                       ..Default::default()
